@@ -52,7 +52,7 @@ CLAIMS["C02"] = dict(
 )
 CLAIMS["C03"] = dict(
     category="proof",
-    text="update_pin_info is proved equal to an independent eight-ray-walk specification of checkers and (raw) pinned for every placement, per fixed king square (8 squares per quick run — central, home and corner squares plus one seed-rotated; all 128 in thorough); the incremental computation at the tail of make_move/make_move_new is proved equal to the same spec on the result position (C02 obligations O2.1b/O2.2b, included here); xor keeps pieces/colour/combined in lock-step and toggles exactly one key; piece_on/color_on/king_square and every accessor agree with the bitboards; derived == compares exactly the position-determined fields, so a position reached incrementally equals the one built from scratch.",
+    text="update_pin_info is proved for EVERY king square at once: Verus proves on the extracted text (loop invariant, any number of candidate sliders) that it computes the pointwise rule 'slider is a checker iff nothing stands between, the single man between is pinned' plus knight and pawn checkers and changes nothing else, and the code-independent Kani lemma S1.6 proves that this pointwise rule equals the independent eight-ray-walk specification of checkers and (raw) pinned for every placement and king square; Kani additionally proves update_pin_info == eight-walk spec on the unextracted code with the real closed-form tables per fixed king square (4 per quick run, all 128 in thorough); the incremental computation at the tail of make_move/make_move_new is proved equal to the same spec on the result position (C02 obligations O2.1b/O2.2b, included here); xor keeps pieces/colour/combined in lock-step and toggles exactly one key; piece_on/color_on/king_square and every accessor agree with the bitboards; derived == compares exactly the position-determined fields, so a position reached incrementally equals the one built from scratch.",
     design_ref="DESIGN.md §6 C03",
     note=TRUST + "table accessors replaced by closed forms proved equal to them (C16 obligations, run as part of this check); quick tier covers a subset of king squares for the loop obligations; the FEN text layer of the statement is C06.",
     technique="Kani/CBMC contracts on Board::update_pin_info, xor, piece_on, color_on and the make_move tails against an eight-ray-walk spec; per-king-square case split with loop unwinding assertions",
